@@ -123,6 +123,22 @@ def gen(tier):
         for fl in ("float", "double"):
             obs.append(kern.Ob("sibling/rounding_integer-from-%s/%s" % (fl, mode), "int", [(fl, "f")],
                                "return unwrap(rounding_integer<int, %s>{f});" % TAGS[mode], ["return convert<%s, int>{}(f);" % TAGS[mode]]))
+    # floating point -> integer, the floor step of neg_inf and tie_to_pos_inf: with t = trunc(x) (conversion toward zero),
+    # floor(x) == t - [x < t].  (tie adds one half in the source type first -- that addition is finding D8 and is taken as
+    # it is here, so that this obligation isolates the floor.)  Decided where the destination's integers are exact in the
+    # source type, through two facts about truncation the normaliser knows: int -> float -> int is the identity there, and
+    # x < trunc(x) implies x < 0.
+    MANT = {"float": 24, "double": 53, "long double": 64}
+    for fl in ("float", "double", "long double"):
+        for D in (I8, I16, I32, I64):
+            if D.bits > MANT[fl]:
+                continue
+            obs.append(kern.Ob("float-floor/neg_inf/%s->%s" % (fl.replace(" ", "-"), D.short), D.name, [(fl, "x")], "return convert<%s, %s>{}(x);" % (TAGS["neg_inf"], D.name),
+                               ["%s const t = static_cast<%s>(x); return static_cast<%s>(t - (x < static_cast<%s>(t)));" % (D.name, D.name, D.name, fl)],
+                               meta=dict(anchor="include/cnl/_impl/rounding/convert_operator.h neg_inf: floor", mode="neg_inf", finding_key="float-floor/neg_inf")))
+            obs.append(kern.Ob("float-floor/tie/%s->%s" % (fl.replace(" ", "-"), D.short), D.name, [(fl, "x")], "return convert<%s, %s>{}(x);" % (TAGS["tie"], D.name),
+                               ["%s const y = x + static_cast<%s>(.5L); %s const t = static_cast<%s>(y); return static_cast<%s>(t - (y < static_cast<%s>(t)));" % (fl, fl, D.name, D.name, D.name, fl)],
+                               meta=dict(anchor="include/cnl/_impl/rounding/convert_operator.h tie_to_pos_inf: floor", mode="tie", finding_key="float-floor/tie")))
     return obs, ub
 
 
@@ -213,7 +229,7 @@ def _same_floor(df, cf, lo, hi, K, P=None):
     return bad is None, bad
 
 
-FLOOR = {"quick": dict(eq=235, ub=20, fp=18), "thorough": dict(eq=800, ub=100, fp=18)}
+FLOOR = {"quick": dict(eq=255, ub=20, fp=18), "thorough": dict(eq=820, ub=100, fp=18)}
 
 
 def run(tier, seed, work):
